@@ -837,8 +837,10 @@ theorem noOver_next {s : Sys} (hinv : Inv s) (hP : AllCls NoOver s.ca) (c : Cmd)
         simp only [hg] at hp
         split at hp
         · cases hp
-        · simp only [Except.ok.injEq] at hp; subst hp
-          exact plain (by intro e he; simp at he; subst he; exact ⟨rfl, rfl⟩)
+        · split at hp
+          · cases hp
+          · simp only [Except.ok.injEq] at hp; subst hp
+            exact plain (by intro e he; simp at he; subst he; exact ⟨rfl, rfl⟩)
     | childCertify ch childRcn ki limit na =>
       simp only [Ca.process] at hp
       cases hg : get s.ca.children ch with
@@ -857,7 +859,9 @@ theorem noOver_next {s : Sys} (hinv : Inv s) (hP : AllCls NoOver s.ca) (c : Cmd)
         split at hp
         · simp only [Except.ok.injEq] at hp; subst hp; exact plain (by intro e he; cases he)
         · split at hp
-          · cases hp
+          · split at hp
+            · simp only [Except.ok.injEq] at hp; subst hp; exact plain (by intro e he; cases he)
+            · cases hp
           · simp only [Except.ok.injEq] at hp; subst hp
             exact plain (by
               intro e he
